@@ -42,7 +42,7 @@ def corrupted(kind, ty, mode, p):
         ok, _ = token_after(p, ty.encode())
         return z3.Or(p.n == 0, z3.Not(text_ok(p)), z3.Not(ok))
     v = p.vals[0]
-    val = ep.percent_decode(v) if kind in ('path', 'query') else v
+    val = ep.percent_decode(v) if kind == 'path' else v        # query values are taken from the parsed (already decoded) query map
     parse_bad = z3.BoolVal(False)
     if ty == 'i32':
         okp, _ = parse_int_model(val, 32, True)
@@ -181,7 +181,8 @@ def concrete_request(e, params, m):
         if kind == 'path':
             op['path'][wire] = vals[0].hex()
         elif kind == 'query':
-            op['query'] += [[wire, v.hex()] for v in vals]
+            # on the wire every byte is percent-encoded, so that the server's form_urlencoded pass yields exactly these bytes
+            op['query'] += [[wire, ''.join('%%%02X' % c for c in v).encode().hex(), v.hex()] for v in vals]
         else:
             op['headers'] += [[wire, v.hex()] for v in vals]
     return op
@@ -206,7 +207,7 @@ def py_expect(e, op):
                 return ('InvalidArgument', lg)
             continue
         if kind == 'query':
-            vals = [unquote_to_bytes(bytes.fromhex(v)) for k, v in op['query'] if k == wire]
+            vals = [bytes.fromhex(q[2]) if len(q) > 2 else unquote_to_bytes(bytes.fromhex(q[1])) for q in op['query'] if q[0] == wire]
         else:
             vals = [bytes.fromhex(v) for k, v in op['headers'] if k == wire]
         if kind == 'auth':
@@ -225,6 +226,28 @@ def py_expect(e, op):
     return ('ok', None)
 
 
+def py_expected_call(e, op, ename):
+    """the handler invocation the statement prescribes for a fully decodable request (format of the replay binary)"""
+    from urllib.parse import unquote_to_bytes
+    out = []
+    for kind, wire, lg, ty, mode in e['args']:
+        if kind == 'path':
+            vals = [unquote_to_bytes(bytes.fromhex(op['path'][wire]))]
+        elif kind == 'query':
+            vals = [bytes.fromhex(q[2]) if len(q) > 2 else unquote_to_bytes(bytes.fromhex(q[1])) for q in op['query'] if q[0] == wire]
+        else:
+            vals = [bytes.fromhex(v) for k, v in op['headers'] if k == wire]
+        def show(b):
+            return str(int(b.decode())) if ty == 'i32' else json.dumps(b.decode('latin1'))
+        if kind == 'auth':
+            out.append(vals[0][len(ty):].decode())
+        elif mode == 'opt':
+            out.append('Some(%s)' % show(vals[0]) if vals else 'None')
+        else:
+            out.append(show(vals[0]))
+    return f'{ename}({",".join(out)})'
+
+
 def report(rep, ename, e, params, m, what):
     op = concrete_request(e, params, m)
     op.update({'op': 'endpoint', 'endpoint': ename})
@@ -234,6 +257,10 @@ def report(rep, ename, e, params, m, what):
     got = ('ok', None) if r.get('ok') else (('PANIC', None) if r.get('panic') else (r.get('code'), r.get('param')))
     if want[0] != 'ok' and r.get('handler_calls', 0) != 0:
         got = ('handler-invoked',) + got
+    if want[0] == 'ok' and got[0] == 'ok':
+        exp_call = py_expected_call(e, op, ename)
+        if r.get('calls') != [exp_call]:
+            got, want = ('ok', r.get('calls')), ('ok', [exp_call])
     if got != want and r == r2:
         kind = 'header-param-name' if (want[0] == 'InvalidArgument' and got[0] == 'InvalidArgument' and any(a[0] == 'header' and a[2] == want[1] for a in e['args'])) else 'other'
         rep.violation(f'C19:{kind}', f'endpoint {ename} request {op}: {what}; native {got}, statement {want}', {'op': op, 'native': r, 'expected': list(want)})
